@@ -173,13 +173,15 @@ const _minAllowedWeight = 0.01
 
 func normalizeCriteriaByTotalValue(criteria model.WeightedCriteria) {
 	minWeight := criteria[0].Weight
-	dif := 0.0
-	if minWeight < _minAllowedWeight {
-		dif = _minAllowedWeight - minWeight
-	}
+	shift := minWeight < _minAllowedWeight
 	total := 0.0
 	for i, c := range criteria {
-		weight := c.Weight + dif
+		weight := c.Weight
+		if shift {
+			// subtract first: adding (_minAllowedWeight - minWeight) at once loses _minAllowedWeight
+			// when minWeight is large and negative, and the smallest weight (so possibly the total) becomes 0
+			weight = (c.Weight - minWeight) + _minAllowedWeight
+		}
 		total += weight
 		criteria[i].Weight = weight
 	}
